@@ -2,14 +2,14 @@
 """Writes MANIFEST.json from lean/props.json (claimed properties) and tools/manifest_meta.json."""
 import json, os
 ROOT = os.path.join(os.path.dirname(os.path.abspath(__file__)), "..")
-props = json.load(open(os.path.join(ROOT, "lean", "props.json")))
+props = {f[:-5] for f in os.listdir(os.path.join(ROOT, "lean", "props")) if f.endswith(".json")}
 meta = json.load(open(os.path.join(ROOT, "tools", "manifest_meta.json")))
 allp = [json.loads(l)["id"] for l in open(os.path.join(ROOT, "properties.jsonl"))]
 checks = []
 for p in allp:
     if p not in props:
         continue
-    m = meta["checks"][p]
+    m = json.load(open(os.path.join(ROOT, "tools", "meta", p + ".json")))
     checks.append({
         "property_id": p,
         "quick_cmd": f"./check {p} --tier quick",
